@@ -196,7 +196,10 @@ def collect(crate, body):
             s['text'] = f"{T.show(e['a'])} / {T.show(e['b'])}"
         elif k == 'panic':
             s['text'] = 'panic via ' + '/'.join(s['mac'] or ['?']) + ' when ' + (' && '.join(T.show(c) for c in e['pc']) or 'reached')
-        via = ('@' + e['via'][-1][0].split('::')[-1]) if e['via'] else ''
+        # sites of the time.rs conversion API keep the callee in their key (the obligation belongs to the call site);
+        # sites reached through a private helper are keyed by the function they are analysed in (helper extraction /
+        # inlining does not change a key)
+        via = ('@' + e['via'][-1][0].split('::')[-1]) if e['via'] and (e['body'] or '').startswith(CONTRACT_MODULES) else ''
         if k == 'panic':
             # keyed by the outermost user macro and its ordinal in the function, not by the condition's text
             mac = (s['mac'][-1] if s['mac'] else 'panic')
